@@ -18,7 +18,8 @@ var rec = vh.NewRecorder("C02", "request-roundtrip",
 		"usually one request per case, sometimes 2-6 at the same time; 0-8 end-to-end fields incl. repeated list-type fields and long/empty values, hop-by-hop fields, body none/"+
 		"Content-Length/chunked at sizes around 4096/32768/1MiB) sent through server+agent binaries to a recording raw "+
 		"backend; non-trivial = escaped or unclean path, non-empty query, repeated field, body >= 4096 or chunked body; "+
-		"distinct = SHA-256 of the canonical case")
+		"distinct = SHA-256 of the canonical case"+
+		" Later additions: field names that merely resemble hop-by-hop names (Proxy-Status, Connection-Id, Keep-Alive-Info, Te-Custom, ...); some cases send 2-6 generated requests at the same time.")
 
 func TestMain(m *testing.M) { vh.Main(m, rec) }
 
